@@ -4,7 +4,7 @@
    that expired and were caught or ignored, and every instant of the external cancel: if the
    cancel was delivered, what reaches the top level is CancelledError - never TaskTimeout,
    TimeoutCancellationError or UncaughtTimeoutError - and no timer is left armed. *)
-From AV Require Import Base Gen_curio Timeout TimeoutProofs.
+From AV Require Import Base Gen_curio Timeout TimeoutProofs TimeoutCode TimeoutCodeProofs.
 From AV Require TaskGroup TaskGroupProofs.
 Local Open Scope Z_scope.
 
@@ -44,7 +44,15 @@ Theorem C12_group_join_stays_cancelled : forall g ls, TaskGroupProofs.ended g = 
   c = true.
 Proof. exact TaskGroupProofs.cancelled_join_ends_cancelled. Qed.
 
+(* the block-exit logic these theorems are about is the one in the source: TimeoutAfter.__aexit__ is translated on
+   every run (gen/Gen_curio.v: aexit_code) and decides, for every input, as the model's aexit does (see props/C11.v) *)
+Theorem C12_aexit_from_source : forall k dl r tod uncaught,
+  aexit_generated {| d_kind := k; d_deadline := dl; d_inflight := r; d_timed_out := tod; d_uncaught := uncaught |} =
+  let '(r', e) := decide k dl r tod uncaught in DDone r' e.
+Proof. exact generated_aexit_is_model. Qed.
+
 Print Assumptions C12_external_cancel_propagates.
 Print Assumptions C12_group_join_stays_cancelled.
 Print Assumptions C12_post.
 Print Assumptions C12_cleanup.
+Print Assumptions C12_aexit_from_source.
